@@ -94,7 +94,7 @@ SELECTORS = {
 def _register(clsname, mk, specname, props):
     cls = getattr(sel, clsname)
 
-    @contract(f"{clsname}.resolve==spec", props, [M + f"{clsname}.resolve"], replay=R.selector_replay(clsname, "sync"))
+    @contract(f"{clsname}.resolve==spec", props, [M + f"{clsname}.resolve"], replay=("selector_replay", [clsname, "sync"]))
     def _spec(ctx, cls=cls, mk=mk, specname=specname):
         ms = ctx.seq("matches")
         mk_self, spec_args = mk(ctx)
@@ -104,7 +104,7 @@ def _register(clsname, mk, specname, props):
             lambda it: it.call_function(spec_fn(spec, specname), spec_args + [matches_iter(ms)], {}),
         )
 
-    @contract(f"{clsname}.resolve_async==resolve", ("C08",), [M + f"{clsname}.resolve", M + f"{clsname}.resolve_async"], replay=R.selector_replay(clsname, "twin"))
+    @contract(f"{clsname}.resolve_async==resolve", ("C08",), [M + f"{clsname}.resolve", M + f"{clsname}.resolve_async"], replay=("selector_replay", [clsname, "twin"]))
     def _twin(ctx, cls=cls, mk=mk):
         ms = ctx.seq("matches")
         mk_self, _ = mk(ctx)
